@@ -50,8 +50,16 @@ pub fn strs() -> Vec<String> {
 pub fn floats() -> Vec<Fl> {
     vec![Fl(0.5), Fl(-0.0), Fl(f64::INFINITY), Fl(f64::NAN), Fl(1e300), Fl(3.0)]
 }
+/// built from fields, never through the parser under test
 pub fn dts() -> Vec<Datetime> {
-    ["1979-05-27", "1979-05-27T07:32:00Z", "07:32:00.5", "2000-02-29 23:59:60.123456789-00:30"].iter().map(|s| s.parse().unwrap()).collect()
+    use toml_datetime::{Date, Offset, Time};
+    vec![
+        Datetime { date: Some(Date { year: 1979, month: 5, day: 27 }), time: None, offset: None },
+        Datetime { date: Some(Date { year: 1979, month: 5, day: 27 }), time: Some(Time { hour: 7, minute: 32, second: 0, nanosecond: 0 }), offset: Some(Offset::Z) },
+        Datetime { date: None, time: Some(Time { hour: 7, minute: 32, second: 0, nanosecond: 500_000_000 }), offset: None },
+        Datetime { date: Some(Date { year: 2000, month: 2, day: 29 }), time: Some(Time { hour: 23, minute: 59, second: 60, nanosecond: 123_456_789 }), offset: Some(Offset::Custom { minutes: -30 }) },
+        Datetime { date: Some(Date { year: 9999, month: 12, day: 31 }), time: Some(Time { hour: 0, minute: 0, second: 0, nanosecond: 1 }), offset: None },
+    ]
 }
 
 #[derive(Serialize, Deserialize, PartialEq, Debug, Clone)]
